@@ -323,6 +323,7 @@ class Analyzer:
         self.memo = {}
         self._av_cache = {}
         self._strvars = {}
+        self.steered = set()
         self.rows = {}              # (file, line, fnshort, ids, sevleaf, cert) -> DNF
         self.site_info = {}
         self.calls_to = {}          # callee key -> set(caller key)
@@ -1147,6 +1148,21 @@ class Analyzer:
         for a in args:
             self.visit_expr(a, fr, pc, out)
         self.escapes(n, args, fr)
+        # an option test handed to a callee that is not analysed as a member of a check class: the callee's result (typically a
+        # selected value) is steered by the options
+        if name and name not in ("reportError", "isEnabled") and not isinstance(ck, (str, tuple)):
+            for a in args:
+                if not is_bool(strip(a).get("ty", "") or a.get("ty", "")):
+                    continue
+                direct = any(x.get("kind") == "MemberExpr" and x.get("name") == "isEnabled" and kids(x) and
+                             "SimpleEnableGroup" in kids(x)[0].get("ty", "") for x in walk(a))
+                sa = strip(a)
+                if not direct and sa.get("kind") == "DeclRefExpr":
+                    # a variable that is nothing but an option test (`const bool printWarning = ...isEnabled(Severity::warning);`)
+                    t = self.bool_abs(sa, fr)[0]
+                    direct = t != TT and len(t) > 0 and all(any(l[0] == 'o' for l in c) and all(l[0] == 'o' or (l[0] == 'l' and ":" + str(sa.get("ref", {}).get("name")) + "#" in l[1]) for l in c) for c in t)
+                if direct:
+                    self.steered.add((os.path.basename(fr.fn.file or ""), fr.fn.short, name))
         if name == "reportError" and (cls == "Check" or (cls or "").startswith("Check")):
             si = next((i for i, a in enumerate(args) if enum_kind(strip(a).get("ty", "") or a.get("ty", "")) == "sev"), None)
             if si is None:
